@@ -340,6 +340,18 @@ func (g *Gen) checkFunction(name string, p *PropConfig, bl *Baseline, tier strin
 			}()
 		}
 	}
+	// has this function lost obligations that were proved on the unchanged tree? then its new
+	// obligations may be their replacements and get the full treatment (see report: lost safety bounds)
+	present := map[string]bool{}
+	for _, o := range c.obls {
+		present[o.ID] = true
+	}
+	lostSome := false
+	for id := range bl.Claimed {
+		if strings.HasPrefix(id, name+"/") && !present[id] {
+			lostSome = true
+		}
+	}
 	// obligations outside the baseline: one fast attempt, only a definite model matters
 	for _, o := range others {
 		o := o
@@ -356,6 +368,9 @@ func (g *Gen) checkFunction(name string, p *PropConfig, bl *Baseline, tier strin
 			f := writeQuery(dir, o.ID, emit(map[*Oblig]bool{o: true}))
 			t := 3 * time.Second
 			r := run("z3-new", f, t)
+			if r.Answer != "unsat" && r.Answer != "sat" && lostSome && !bl.NotClaimed[o.ID] && tier != "thorough" {
+				r = race(f, timeout/2, solverOrder)
+			}
 			if r.Answer != "unsat" && r.Answer != "sat" && tier == "thorough" {
 				// deeper attempt; obligations already known never to discharge get a shorter one
 				t2 := timeout
